@@ -146,9 +146,12 @@ def input_symbol(cat, inp, nonneg=False):
             tot = getattr(ex, 'copies_total', None)
             if tot is not None:
                 acc = tm.I(0)
+                nonneg_all = []
                 for other in cat.count_inputs(inp):
-                    acc = tm.add(acc, tm.var('i:' + other, 'I'))
-                ex.assume(tm.le(acc, tm.I(tot)))
+                    ov = tm.var('i:' + other, 'I')
+                    acc = tm.add(acc, ov)
+                    nonneg_all.append(tm.le(tm.I(0), ov))     # counts not read on this path are counts too
+                ex.assume(tm.and_(tm.le(acc, tm.I(tot)), *nonneg_all))
             return r
         return symx.fresh_int(name, lo, hi)
     if t is I.FloatInput:
